@@ -297,9 +297,10 @@ class Shard(ShardCMC):
 
             # minishard order must always monotoneously increasing
             # by default, python dict iter respects order of insertion
+            sorted_keys = sorted(self.minishard_dict.keys())
             sorted_mini_dict: List[MiniShard] = [
                 self.minishard_dict[key]
-                for key in sorted(self.minishard_dict.keys())
+                for key in sorted_keys
             ]
             assert all(
                 isinstance(minishard, MiniShard)
@@ -317,7 +318,14 @@ class Shard(ShardCMC):
                 del minishard.databytearray
 
             sh_size = 0
-            for minishard in sorted_mini_dict:
+            for key, minishard in zip(sorted_keys, sorted_mini_dict):
+                if isinstance(key, (int, np.integer)):
+                    # The entry of minishard number N must be the N-th entry
+                    # of the shard index: minishards that hold no chunk get
+                    # an empty entry (start == end).
+                    while len(sh_idx_buf) < 16 * int(key):
+                        sh_idx_buf += struct.pack("<Q", data_size + sh_size)
+                        sh_idx_buf += struct.pack("<Q", data_size + sh_size)
                 # turning [0, 1, 2, 3, 4, 5] into [0, 3, 1, 4, 2, 5]
                 num_cols = int(len(minishard.header) / 3)
                 hdr_buf = np.reshape(minishard.header, (3, num_cols),
